@@ -701,6 +701,114 @@ MALFORMED = [
 ]
 
 
+def archive_text(a):
+    f = io.StringIO()
+    a.save(f)
+    return f.getvalue()
+
+
+def observe_archive(a):
+    """Look at ONE archive object repeatedly and through every public route
+    (`__iter__` three times, `.objs` as a sequence, `save`).  An observation that raises is
+    recorded as 'raise <Exc>'.  A loaded archive is a value: every observation must agree."""
+    obs = {}
+
+    def it():
+        return [walk_obj(o) for o in a]
+
+    routes = [("iter#1", it), ("iter#2", it), ("objs.len", lambda: len(a.objs)),
+              ("objs[i]", lambda: [walk_obj(a.objs[i]) for i in range(len(a.objs))]),
+              ("iter#3", it), ("save", lambda: json.loads(archive_text(a))), ("iter#4-after-save", it)]
+    for name, f in routes:
+        try:
+            obs[name] = f()
+        except Exception as e:  # noqa
+            obs[name] = "raise " + exc_name(e)
+    return obs
+
+
+def lib_member(arch, name, defines, needs, rng):
+    """A library member defining the global symbols `defines` and referring to `needs`."""
+    from ppci.api import get_arch
+    from ppci.binutils.objectfile import ObjectFile
+    o = ObjectFile(get_arch(arch))
+    code = o.create_section("code")
+    code.add_data(bytes(rng.getrandbits(8) for _ in range(rng.choice([4, 8, 31, 40]))))
+    if rng.random() < 0.5:
+        o.create_section("data").add_data(bytes(rng.getrandbits(8) for _ in range(rng.randint(1, 6))))
+    sid = 0
+    for d in defines:
+        o.add_symbol(sid, d, "global", 4 * sid, "code", "func", 4)
+        sid += 1
+    for n in needs:
+        o.add_symbol(sid, n, "global", None, None, "func", 0)
+        sid += 1
+    o.add_symbol(sid, name + "_local", "local", 0, "code", "object", 0)
+    return o
+
+
+# (what main needs, [(member defines, member needs)] in archive order)
+LIB_SHAPES = {
+    "forward": (["f0"], [(["f0"], ["f1"]), (["f1"], ["f2"]), (["f2"], [])]),
+    "backward": (["f2"], [(["f0"], []), (["f1"], ["f0"]), (["f2"], ["f1"])]),           # needs >1 scan of the library
+    "backward2": (["printf"], [(["putc"], []), (["printf"], ["putc"])]),
+    "mutual": (["a"], [(["a"], ["b"]), (["b"], ["a"])]),
+    "mutual-backward": (["b"], [(["a"], ["b", "c"]), (["b"], ["a"]), (["c"], [])]),
+    "unused-member": (["x"], [(["junk"], []), (["x"], []), (["junk2"], ["never"])]),
+    "diamond-backward": (["top"], [(["leaf"], []), (["l"], ["leaf"]), (["r"], ["leaf"]), (["top"], ["l", "r"])]),
+    "single": (["only"], [(["only"], [])]),
+}
+
+
+def lib_scenarios(ctx):
+    """(tag, main object, members) : archives whose members depend on each other forward, backward, mutually."""
+    rng = ctx.rng
+    out = []
+    archs = ["arm", "msp430", "x86_64", "riscv"]
+    for k, (shape, (main_needs, members)) in enumerate(sorted(LIB_SHAPES.items())):
+        arch = archs[(k + ctx.seed) % len(archs)]
+        main = lib_member(arch, "main", ["main"], main_needs, rng)
+        out.append((f"lib:{shape}:{arch}", main, [lib_member(arch, f"m{i}", d, n, rng) for i, (d, n) in enumerate(members)]))
+    for j in range(12 if ctx.thorough else 3):       # random dependency graphs over up to 6 members
+        n = rng.randint(2, 6)
+        arch = rng.choice(archs)
+        order = list(range(n))
+        rng.shuffle(order)
+        members = []
+        for i in range(n):
+            needs = [f"s{t}" for t in rng.sample(range(n), rng.randint(0, min(2, n - 1))) if t != i]
+            members.append(([f"s{i}"], needs))
+        members = [members[i] for i in order]
+        main = lib_member(arch, "main", ["main"], [f"s{rng.randrange(n)}"], rng)
+        out.append((f"lib:random{j}:{arch}", main, [lib_member(arch, f"m{i}", d, nd, rng) for i, (d, nd) in enumerate(members)]))
+    return out
+
+
+C_LIB = [
+    ("int lib_g{n} = {k};\nint lib_leaf{n}(int a) {{ return a * {k} + lib_g{n}; }}\n"),
+    ("extern int lib_leaf{n}(int);\nint lib_mid{n}(int a) {{ int i, s = 0; for (i = 0; i < a; i++) s += lib_leaf{n}(i); return s; }}\n"),
+    ("extern int lib_mid{n}(int);\nint main{n}(int x) {{ return lib_mid{n}(x) + 1; }}\n"),
+]
+
+
+def real_lib_scenarios(ctx, arch):
+    """main calls lib_mid (LATER member) which calls lib_leaf (EARLIER member): a backward dependency in compiled code."""
+    from ppci.api import cc
+    import contextlib
+    import logging
+    n, k = ctx.rng.randrange(1000), ctx.rng.randint(2, 90)
+    logging.disable(logging.CRITICAL)
+    try:
+        with contextlib.redirect_stdout(io.StringIO()):
+            leaf, mid, main = [cc(io.StringIO(t.format(n=n, k=k)), arch, opt_level=ctx.rng.choice([0, 2])) for t in C_LIB]
+    except Exception as e:  # noqa
+        ctx.count(f"skip_reallib_{exc_name(e)}")
+        return []
+    finally:
+        logging.disable(logging.NOTSET)
+    return [(f"lib:cc-backward:{arch}", main, [leaf, mid]), (f"lib:cc-forward:{arch}", main, [mid, leaf])]
+
+
 def real_deserialize(tree):
     from ppci.binutils.objectfile import deserialize
     try:
@@ -844,21 +952,37 @@ def check(ctx):
     for _ in range(40 if ctx.thorough else 6):
         if pool:
             ar_groups.append(rng.sample(pool, rng.randint(0, min(4, len(pool)))))
+    libs = lib_scenarios(ctx)
+    for arch in (targets if ctx.thorough else TARGETS_QUICK):
+        libs += real_lib_scenarios(ctx, arch)
+    ar_groups += [m for _, _, m in libs]
     ar_meta = []
     for g in ar_groups:
-        f = io.StringIO()
-        Archive(g).save(f)
-        text = f.getvalue()
+        text = archive_text(Archive(g))
         jt = json.loads(text)
         ws = [walk_obj(o) for o in g]
         ask("arsave", ws, "ok " + encode(jt), "arsave")
         try:
             a2 = Archive.load(io.StringIO(text))
-            outcome = ("ok", [walk_obj(o) for o in a2.objs])
+            obs = observe_archive(a2)
         except Exception as e:  # noqa
-            outcome = ("err", exc_name(e))
-        ask("arload", jt, reply_of(*outcome), "arload")
-        ar_meta.append((ws, outcome))
+            obs = {"load": "raise " + exc_name(e)}
+        first, second = obs.get("iter#1", obs.get("load")), obs.get("iter#2", obs.get("load"))
+        # the model's loaded archive is a value: it must agree with the FIRST and with every LATER look at the real one
+        for kind, o in (("arload", first), ("arload-second-look", second), ("arload-via-objs", obs.get("objs[i]", obs.get("load")))):
+            ask("arload", jt, ("ok " + encode(o)) if isinstance(o, list) else "err " + str(o).replace("raise ", ""), kind)
+        # save -> load -> save chain on the LOADED archive
+        chain = {}
+        try:
+            a3 = Archive.load(io.StringIO(text))
+            list(a3)                                   # somebody looked at it once
+            t2 = archive_text(a3)
+            a4 = Archive.load(io.StringIO(t2))
+            chain = {"resaved": json.loads(t2), "reloaded": [walk_obj(o) for o in a4], "resaved-again": json.loads(archive_text(a4))}
+            chain["eq"] = [list(Archive(g)) == list(a3), list(a3) == list(Archive(g)), list(a4) == list(g)]
+        except Exception as e:  # noqa
+            chain["raise"] = exc_name(e)
+        ar_meta.append((ws, jt, obs, chain))
 
     # malformed trees for the loader
     donors = [o for t, o in objs if t.startswith("corpus:struct-first") or t.startswith("corpus:edges")]
@@ -910,13 +1034,73 @@ def check(ctx):
             ctx.disagree("loadable", tag, "load ok", "loadable = false")
         for p in sorted(set(diff_paths(w, outcome[1]))):
             ctx.fail("roundtrip:" + p, f"{tag}: field {p} differs after save+load", tag, walk=w if len(json.dumps(w)) < 4000 else "(large)")
-    for ws, outcome in ar_meta:
+    for ws, jt, obs, chain in ar_meta:
         ctx.count("eval_archive")
-        if outcome[0] == "err":      # members are real outputs / non-wild generated objects: each loads on its own
-            ctx.fail(f"archive:load:{outcome[1]}", f"Archive.load raised {outcome[1]}", [w["arch"] for w in ws])
+        if "load" in obs:      # members are real outputs / non-wild generated objects: each loads on its own
+            ctx.fail(f"archive:load:{obs['load']}", f"Archive.load: {obs['load']}", [w["arch"] for w in ws])
             continue
-        for p in sorted(set(diff_paths(ws, outcome[1]))):
-            ctx.fail("archive:roundtrip:" + p, f"archive member field {p} differs after save+load", len(ws))
+        for route, seen in obs.items():
+            ctx.count("eval_archive_observation")
+            want = len(ws) if route == "objs.len" else (jt if route == "save" else ws)
+            if isinstance(seen, str):
+                ctx.fail(f"archive:{route}:raises", f"loaded archive, observation {route}: {seen} ({len(ws)} members saved)", len(ws))
+            elif route == "objs.len" or not isinstance(seen, list):
+                if seen != want:
+                    ctx.fail(f"archive:{route}:differs", f"loaded archive, observation {route}: got {str(seen)[:80]}, saved {len(ws)} members", len(ws))
+            elif len(seen) != len(want):
+                ctx.fail(f"archive:{route}:member-count", f"loaded archive, observation {route}: {len(seen)} members, {len(ws)} were saved", len(ws))
+            else:
+                for p in sorted(set(diff_paths(ws, seen))):
+                    ctx.fail(f"archive:roundtrip:{p}", f"archive member field {p} differs after save+load ({route})", len(ws))
+        if "raise" in chain:
+            ctx.fail(f"archive:resave-chain:raises:{chain['raise']}", "load -> look -> save -> load -> save raised", len(ws))
+        else:
+            if chain["resaved"] != jt or chain["resaved-again"] != jt:
+                n2 = len(chain["resaved"].get("objects", []))
+                ctx.fail("archive:resave-chain:text-differs", f"saving a loaded (and once inspected) archive again gives {n2} objects, {len(ws)} were saved", len(ws))
+            elif diff_paths(ws, chain["reloaded"]):
+                ctx.fail("archive:resave-chain:members-differ", "load(save(load(save a))) differs from a", len(ws))
+            if ws and not all(chain["eq"]):
+                ctx.fail("archive:equality", f"member lists compare unequal after reload (orig==loaded, loaded==orig, chain==orig) = {chain['eq']}", len(ws))
+
+    # ---- linking against the reloaded ARCHIVE = linking against the original (real linker) ----
+    def link_lib(main, lib):
+        import logging
+        logging.disable(logging.CRITICAL)          # the linker logs every undefined reference
+        try:
+            o = link([load_text(save_text(main))], libraries=[lib])
+            return ("ok", save_text(o), [bytes(i.data) for i in o.images])
+        except Exception as e:  # noqa
+            return ("err", exc_name(e), str(getattr(e, "msg", e))[:120])
+        finally:
+            logging.disable(logging.NOTSET)
+
+    for tag, main, members in libs:
+        ref = link_lib(main, Archive(members))
+        if ref[0] != "ok":
+            ctx.count("liblink_skip_" + ref[1])          # the in-memory archive does not link either: no information
+            continue
+        text = archive_text(Archive(members))
+        uses = {}
+        fresh = Archive.load(io.StringIO(text))
+        uses["first-use"] = link_lib(main, fresh)
+        uses["second-use-of-same-archive"] = link_lib(main, fresh)
+        looked = Archive.load(io.StringIO(text))
+        try:
+            list(looked)
+        except Exception:  # noqa
+            pass
+        uses["after-inspection"] = link_lib(main, looked)
+        chained = Archive.load(io.StringIO(archive_text(Archive.load(io.StringIO(text)))))
+        uses["save-load-save-load"] = link_lib(main, chained)
+        for use, got in uses.items():
+            ctx.count("eval_link_with_reloaded_archive")
+            if got[0] == "err":
+                ctx.fail(f"archive-link:{use}:raises:{got[1]}", f"{tag}: linking against the reloaded archive ({use}) raised {got[1]}: {got[2]}; "
+                         "the in-memory archive links", tag)
+            elif got != ref:
+                ctx.fail(f"archive-link:{use}:differs", f"{tag}: linking against the reloaded archive ({use}) gives a different output", tag)
+        ctx.nontrivial(("liblink", tag))
 
     # ---- linking the reloaded objects gives byte-identical output (real linker) ---------
     layout = "MEMORY flash LOCATION=0x1000 SIZE=0x40000 { SECTION(code) ALIGN(8) SECTION(data) }\nMEMORY ram LOCATION=0x20000000 SIZE=0x8000 { SECTION(bss) }"
